@@ -32,6 +32,7 @@ type histOpts struct {
 	sizes                  bool   // messages with body sizes around the 4 KiB granule and the limit
 	tails                  bool   // grammar-external surplus bytes inside messages (C03)
 	copyForeign            bool   // Terminate/Describe/Close/Bind as the foreign message that aborts a COPY (C13)
+	copyTwice              bool   // a handler that starts a second COPY after the first one ended (C13)
 	churn                  bool   // long runs of Parse/Close, many live names, Bind/Close (C07)
 	manyRows               bool   // long results: a row repeated 17-3000 times (E1 sessions)
 	prefix                 string // program-key prefix (distinct per connection in multi-connection cases)
@@ -168,6 +169,11 @@ func (g *histGen) genStmt(ext bool) *StmtProg {
 			return sp
 		}
 	}
+	if g.o.abuse && r.Chance(1, 15) {
+		// the statement function gives up: it returns nil without completing
+		// (after whatever it wrote or failed to write)
+		return sp
+	}
 	sp.Ops = append(sp.Ops, Op{K: "written"}, Op{K: "complete", Tag: g.tag()})
 	if g.o.abuse && r.Chance(1, 3) {
 		for n := r.Range(1, 3); n > 0; n-- {
@@ -211,7 +217,12 @@ func (g *histGen) genCopyStmt() (*StmtProg, []pgwire.FMsg) {
 		case 1:
 			seq = append(seq, pgwire.FMsg{K: "S"})
 		default:
-			seq = append(seq, pgwire.FMsg{K: "d", Data: r.Bytes(r.PickInt(0, 1, 5, 40, 300))})
+			data := r.Bytes(r.PickInt(0, 1, 5, 40, 300))
+			if r.Chance(1, 8) {
+				// payloads that spell the old text-format end-of-data marker: data like any other
+				data = []byte(r.Pick("\\.", "\\.\n", "\\.\r\n", "\\.\n\\.\n", "x\\.\n"))
+			}
+			seq = append(seq, pgwire.FMsg{K: "d", Data: data})
 		}
 	}
 	if (g.o.oversized || g.o.sizes) && g.m.Limit < 1<<20 && r.Chance(1, 4) {
@@ -434,6 +445,19 @@ func (g *histGen) unit() {
 		cs = append(cs, choice{2, func() {
 			key := g.newKey()
 			sp, seq := g.genCopyStmt()
+			if g.o.copyTwice && r.Chance(1, 10) {
+				// one handler, two COPY streams in a row: each CopyInResponse is
+				// followed by its own data, each CopyDone ends only its own stream
+				fmtc := int16(r.Intn(2))
+				sp.Ops = []Op{{K: "copyin", Fmt: fmtc}, {K: "copyall"}, {K: "copyin", Fmt: fmtc}, {K: "copyall"}, {K: "complete", Tag: "COPY 2"}}
+				seq = nil
+				for k := 0; k < 2; k++ {
+					for n := r.Range(0, 2); n > 0; n-- {
+						seq = append(seq, pgwire.FMsg{K: "d", Data: r.Bytes(r.PickInt(1, 5, 40))})
+					}
+					seq = append(seq, pgwire.FMsg{K: "c"})
+				}
+			}
 			g.c.Programs[key] = &Program{Stmts: []*StmtProg{sp}}
 			if g.o.extended && r.Chance(1, 3) {
 				bind := pgwire.FMsg{K: "B", S1: "", S2: ""}
@@ -532,7 +556,11 @@ func (g *histGen) unit() {
 						}
 					}
 				}
-				ms = append(ms, pgwire.FMsg{K: "E", S1: pn}, pgwire.FMsg{K: "S"})
+				ms = append(ms, pgwire.FMsg{K: "E", S1: pn})
+				if r.Chance(1, 4) {
+					ms = append(ms, pgwire.FMsg{K: "H"}) // Flush between Execute and Sync
+				}
+				ms = append(ms, pgwire.FMsg{K: "S"})
 				g.add(ms...)
 			}},
 		)
